@@ -48,7 +48,10 @@ def work(chunk, extra):
         for _ in range(extra['per_table']):
             k = rng.random()
             if k < 0.5:
-                x = gens.live_selfies(rng, maxlen=40, alphabet=alist, rich=0.3, dots=0.0, nops=0.0)
+                try:
+                    x = gens.live_selfies(rng, maxlen=40, alphabet=alist, rich=0.3, dots=0.0, nops=0.0)
+                except IndexError:       # an alphabet without some class of symbols: the generator of live strings has nothing to choose from
+                    x = gens.uniform_selfies(rng, alistr(alist, rng), 25)
             else:
                 x = gens.uniform_selfies(rng, alistr(alist, rng), 25)
             cases.append(x)
